@@ -119,6 +119,9 @@ def salt(S, obj, seq, rng, rep, k=None, cheap=False):
             w = min(len(seq), rng.choice([1, 5, 6]))
             obj.get_linear_NCPR(w)
             obj.get_linear_sequence_composition(w)
+            obj.get_linear_FCR(w)
+            obj.get_linear_sigma(w)
+            obj.get_linear_hydropathy(w)
     rep.cnt("salted_objects")
     return done
 
